@@ -119,6 +119,14 @@ class World(object):
                 for st in (rps.PMGR_LAUNCHING, rps.PMGR_ACTIVE, rps.DONE):
                     if st != self.pstate.get(pid):
                         ev.append(('pstate', pid, st))
+        if self.scn.get('pstate_pairs') and {'p1', 'p2'} <= self.ever:
+            # one state message naming both pilots, either order
+            for a, b in (('p1', 'p2'), ('p2', 'p1')):
+                for sa in (rps.PMGR_ACTIVE, rps.DONE):
+                    for sb in (rps.PMGR_ACTIVE, rps.DONE):
+                        if sa != self.pstate.get(a) and \
+                           sb != self.pstate.get(b):
+                            ev.append(('pstate2', a, sa, b, sb))
         if not self.added and self.scn.get('add_pairs'):
             # one add_pilots command naming both pilots, either order
             ev.append(('add2', 'p1', 'p2'))
@@ -179,6 +187,15 @@ class World(object):
                 s._base_state_cb(rpc.STATE_PUBSUB, seams.wire(
                     {'cmd': 'update',
                      'arg': [{'uid': ev[1], 'type': 'pilot', 'state': ev[2]}]}))
+            elif kind == 'pstate2':
+                arg = list()
+                for pid, st in (ev[1:3], ev[3:5]):
+                    cur = self.pstate.get(pid, rps.NEW)
+                    if cur not in rps.FINAL and PVAL[st] > PVAL[cur]:
+                        self.pstate[pid] = st
+                    arg.append({'uid': pid, 'type': 'pilot', 'state': st})
+                s._base_state_cb(rpc.STATE_PUBSUB, seams.wire(
+                    {'cmd': 'update', 'arg': arg}))
             elif kind in ('tfinal', 'tfinal2'):
                 arg = list()
                 for uid in ev[1:]:
@@ -201,7 +218,8 @@ class World(object):
     def site(self, kind):
         return {'submit': 'work', 'add': 'control_cb', 'remove': 'control_cb',
                 'add2': 'control_cb',
-                'pstate': '_base_state_cb', 'tfinal': 'update_tasks',
+                'pstate': '_base_state_cb', 'pstate2': '_base_state_cb',
+                'tfinal': 'update_tasks',
                 'tfinal2': 'update_tasks'}[kind]
 
     def task_by_uid(self, uid):
@@ -426,6 +444,7 @@ def scenarios(quick):
             out.append({'name': '%s/%s' % (sched, name), 'sched': sched,
                         'tasks': tasks,
                         'add_pairs': True,
+                        'pstate_pairs': name in ('u1u1u1', 'n1u1n1'),
                         'pairs_final': sched == 'bf' and name in
                                        ('u1u1u1', 'u4u4u4u1', 'n1u1n1')})
     return out
